@@ -243,7 +243,28 @@ class IterateUnit(Unit):
                     elif c < 0.2 and spec.ub[j] < INF:
                         x[j] = spec.ub[j] - g.rng.choice([atol, -atol, 2 * atol])
             y = g.vec(spec.m, kmax=8, jmax=1)
-            cases.append({"spec": spec.to_json(), "sc": sc, "trans": trans, "atol": atol, "x": x, "y": y,
+            sj = spec.to_json()
+            if not trans and k % 6 == 5:
+                # bounds of large magnitude with the point a hair inside / outside the activity tolerance: a test that is
+                # relative to |bound| instead of absolute (np.isclose and the like) decides differently here.  Affine data
+                # keeps every quantity exact.
+                atol = 2.0 ** -8
+                n = len(x)
+                sj["P"] = [[0.0] * n for _ in range(n)]
+                sj["A"] = [[[0.0] * n for _ in range(n)] for _ in range(len(y))]
+                for j in range(n):
+                    big = g.rng.choice([-1.0, 1.0]) * g.rng.choice([1, 3, 5]) * 2.0 ** g.rng.randint(10, 14)
+                    width = g.rng.choice([0.0, 0.5, 8.0])
+                    side = g.rng.choice(["lb", "ub", "both"])
+                    lo = big if side in ("lb", "both") else "-inf"
+                    hi = big + width if side == "both" else (big if side == "ub" else "inf")
+                    sj["lb"][j], sj["ub"][j] = lo, hi
+                    ref = big if side != "ub" else big
+                    d = g.rng.choice([0.0, atol, atol + 2.0 ** -10, atol - 2.0 ** -10, 2 * atol, 0.25])
+                    x[j] = ref + d if side != "ub" else ref - d
+                    if side == "both" and x[j] > hi:
+                        x[j] = hi
+            cases.append({"spec": sj, "sc": sc, "trans": trans, "atol": atol, "x": x, "y": y,
                           "rho": g.rng.choice([0.0, 0.5, 1.0, 2.0, 3.0]),
                           "ftol": g.rng.choice([0.0, 0.25, 1.0, 4.0]), "itol": g.rng.choice([0.0, 0.5, 2.0, 16.0]),
                           "fmt": g.rng.choice(["coo", "csr", "csc"])})
